@@ -222,7 +222,7 @@ VecX(ch, fam, rich, extra) ==
   LET r == CompileChain(ch)
       d == DefaultOf(ch)
       ps == IF r.ok THEN SetToSeq(ProbeSet(r.t, rich) \cup extra) ELSE << >>
-  IN [fam |-> fam, chain |-> ch, kc |-> KindClass(ch.k), cj |-> r.j, ok |-> r.ok, why |-> r.why,
+  IN [fam |-> fam, chain |-> ch, kc |-> KindClass(ch.k), cj |-> r.j, ok |-> r.ok, why |-> r.why, dj |-> DefaultJudged(ch),
       hasDef |-> r.ok /\ d.has, def |-> IF r.ok THEN d.v ELSE << >>,
       bounds |-> IF r.ok THEN BoundTexts(r.t) ELSE << >>,
       probes |-> [i \in 1..Len(ps) |-> ProbeRec(r.t, ps[i])]]
@@ -235,6 +235,15 @@ GVec(g, fam, rich) ==
   [fam |-> fam, grp |-> [i \in 1..Len(g) |-> VecX(g[i], fam, rich, all)]]
 
 \* ------------------------------------------------------------------ chain families
+\* the leaf contexts in a fixed order (the first is the plain leaf)
+Ctxs == <<"plain", "mandatory", "config-false", "state-mandatory", "deprecated", "obsolete", "if-feature", "mandatory-if-feature",
+          "case", "short-case", "case-mandatory", "default-case", "list", "list-mandatory", "presence", "presence-mandatory",
+          "uses", "uses-mandatory", "refine-mandatory">>
+ASSUME RangeOf(Ctxs) = LeafCtxs
+InCtx(ch, c) == [ch EXCEPT !.ctx = c]
+\* a typedef'd union used as a member (typedef tN { type union {...} }  ...  type tN;) and an inline nested union
+TU(ms) == Chain("union", <<[Lv0 EXCEPT !.members = ms], Lv0>>)
+IU(ms) == Chain("union", <<[Lv0 EXCEPT !.members = ms]>>)
 \* all chains whose levels are drawn from the menus m1, m2, m3 (depth 1..maxd) with level 1 fixed
 Chains3(k, L1, m2, m3, maxd) ==
   {Chain(k, <<L1>>)}
@@ -286,7 +295,7 @@ Idents == << Idn("a", "b0", "", ""), Idn("a", "d1", "a", "b0"), Idn("a", "d2", "
              Idn("a", "tcp", "a", "b0"), Idn("b", "tcp", "a", "b0"), Idn("a", "tcp-fast", "a", "tcp"), Idn("b", "tcp-ext", "b", "tcp"),
              Idn("a", "udp", "a", "b0"), Idn("b", "udp", "a", "udp"), Idn("b", "udp-lite", "b", "udp"), Idn("a", "udp6", "a", "udp"),
              Idn("b", "d1", "a", "d1"), Idn("b", "d9", "b", "d1") >>
-IdCh(mod, bm, bn, rest) == [k |-> "identityref", mod |-> mod, lay |-> "top", idents |-> Idents, levels |-> <<[Lv0 EXCEPT !.idbase = [m |-> bm, n |-> bn]]>> \o rest]
+IdCh(mod, bm, bn, rest) == [k |-> "identityref", mod |-> mod, lay |-> "top", ctx |-> "plain", idents |-> Idents, levels |-> <<[Lv0 EXCEPT !.idbase = [m |-> bm, n |-> bn]]>> \o rest]
 Mem(k, L) == Chain(k, <<L>>)
 U1 == <<Mem("int8", Rg(<<P2(c1, c5)>>)), Mem("string", Ln(<<P1(c2)>>))>>
 U2 == <<Mem("union", [Lv0 EXCEPT !.members = U1]), Mem("boolean", Lv0)>>
@@ -340,7 +349,7 @@ DirectOtherFam ==
   \cup {IdCh(m, bm, bn, rest) : m \in {"a", "b"}, bm \in {"a"}, bn \in {"b0", "d1", "d2", "other", "tcp", "udp"}, rest \in {<< >>, <<Lv0>>}}
   \cup {IdCh("b", "b", bn, << >>) : bn \in {"e1", "e2", "lone", "tcp", "udp", "d1"}}
   \cup {Relaid(IdCh("a", "a", bn, <<Lv0>>), "xmod") : bn \in {"b0", "udp"}}
-  \cup {[k |-> "union", mod |-> "b", lay |-> "top", idents |-> Idents, levels |-> <<Un(<<IdCh("b", "a", "d1", << >>), Mem("int8", Lv0)>>)>>]}
+  \cup {[k |-> "union", mod |-> "b", lay |-> "top", ctx |-> "plain", idents |-> Idents, levels |-> <<Un(<<IdCh("b", "a", "d1", << >>), Mem("int8", Lv0)>>)>>]}
 \* custom error-message / error-app-tag on ranges, lengths and patterns at several levels
 RgM(parts, m, tg) == [Lv0 EXCEPT !.rng = parts, !.rmsg = m, !.rtag = tg]
 LnM(parts, m, tg) == [Lv0 EXCEPT !.len = parts, !.lmsg = m, !.ltag = tg]
@@ -418,8 +427,6 @@ KindHistFam(r) ==
        {<<mk(sh, v), mk(sh, i)>>, <<mk(sh, i), mk(sh, v)>>, <<mk(sh, v), mk(sh, i), mk(sh, v)>>, <<mk(sh, i)>>, <<mk(sh, i), mk(sh, i)>>}
        \cup {<<mk(sh, v), mk(sh, v2), mk(sh, i)>> : v2 \in KHValid(k)} \cup {<<mk(sh, v), mk(sh, v2)>> : v2 \in KHValid(k)}
        : i \in KHInvalid(k)} : v \in KHValid(k)} : sh \in {<<FirstOf(k)>>, <<FirstOf(k), Lv0>>}}
-\* fam 10000 + r: r < 100 shared chains, r >= 100 different bases
-GroupsOf(fam) == LET r == fam % 1000 IN IF r < 100 THEN SharedFam(r) ELSE IF r < 200 THEN DiffBaseFam(r - 100) ELSE KindHistFam(r - 200)
 
 \* ------------------------------------------------------------------ seeded random chains (TLC RandomElement, -seed)
 RandOf(s) == s[RandomElement(1..Len(s))]
@@ -469,13 +476,34 @@ RandKinds == <<"int8", "uint8", "int16", "uint16", "int32", "uint32", "int64", "
 RandChainK(k) ==
   LET fd == RandOf(<<1, 2, 3, 6, 12, 17, 18>>)
       lay == RandOf(<<"top", "top", "local", "xmod">>)
-      start == Relaid(Chain(k, <<IF k = "decimal64" THEN [Lv0 EXCEPT !.fd = fd] ELSE Lv0>>), lay)
+      \* half of the leaves are plain, the others stand in a random context
+      lctx == IF Coin(2) THEN "plain" ELSE RandOf(Ctxs)
+      start == InCtx(Relaid(Chain(k, <<IF k = "decimal64" THEN [Lv0 EXCEPT !.fd = fd] ELSE Lv0>>), lay), lctx)
       r0 == CompileChain(start).t
       first == IF k \in NumKinds /\ ~Coin(3) THEN [start EXCEPT !.levels[1].rng = RandParts(r0, Pool(r0))]
                ELSE IF k = "string" THEN [start EXCEPT !.levels[1].len = IF Coin(3) THEN << >> ELSE RandLenParts(0), !.levels[1].pats = IF Coin(2) THEN << >> ELSE <<Pat(RandOf(AllPats), "", "")>>]
                ELSE start
   IN RandGrow(first, RandomElement(0..3))
 RandChain(u_) == RandChainK(RandOf(RandKinds))
+\* a random union: 2-3 members that refine the same random typedef chain with random last levels (the bounds of one
+\* member are probes of the others), side by side or through nested (typedef'd / inline) unions
+RandUnionChain(u_) ==
+  LET base == [RandChainK(RandOf(<<"int8", "uint8", "int32", "uint64", "decimal64", "string", "string">>)) EXCEPT !.lay = "top", !.mod = "a", !.ctx = "plain"]
+      n == Len(base.levels)
+      sh == IF n >= 2 /\ CompileChain([base EXCEPT !.levels = SubSeq(@, 1, n - 1)]).ok THEN [base EXCEPT !.levels = SubSeq(@, 1, n - 1)] ELSE [base EXCEPT !.levels = <<[@[1] EXCEPT !.rng = << >>, !.len = << >>, !.pats = << >>, !.hasDef = FALSE]>>]
+      NoDef(ch) == [ch EXCEPT !.levels[Len(ch.levels)].hasDef = FALSE, !.levels[Len(ch.levels)].def = << >>]
+      m1 == NoDef(RandGrow(sh, 1))  m2 == NoDef(RandGrow(sh, 1))  m3 == NoDef(RandGrow(sh, 1))
+      o == Mem("boolean", Lv0)
+      rest == IF Coin(2) THEN <<m2>> ELSE <<m2, m3>>
+      form == RandomElement(1..6)
+      members == CASE form = 1 -> <<m1>> \o rest
+                   [] form = 2 -> <<TU(<<m1, o>>)>> \o rest
+                   [] form = 3 -> <<m1, TU(rest \o <<o>>)>>
+                   [] form = 4 -> <<IU(<<m1>>)>> \o rest
+                   [] form = 5 -> <<TU(<<m1>>), o, TU(rest)>>
+                   [] OTHER -> <<TU(<<TU(<<m1, o>>)>>)>> \o rest
+      inB == Coin(3)
+  IN [Chain("union", IF Coin(3) THEN <<Un(members), Lv0>> ELSE <<Un(members)>>) EXCEPT !.mod = IF inB THEN "b" ELSE "a"]
 \* a random group: a random chain and a sibling that either refines the same typedefs with another random last
 \* level or applies the very same last level to another random base of the same built-in type
 RandGroup(u_) ==
@@ -504,11 +532,11 @@ RandLexemes(t, n, rich) ==
      : i \in 1..n}
   ELSE {RandStr(rich) : i \in 1..n}
 RandVec(fam, nlex, u_) ==
-  LET ch == RandChain(fam)
+  LET ch == IF fam % 1000 >= 200 THEN RandUnionChain(fam) ELSE RandChain(fam)
       r == CompileChain(ch)
       d == DefaultOf(ch)
       ps == IF r.ok THEN SetToSeq(RandLexemes(r.t, nlex, fam % 1000 >= 100) \cup ProbeSet(r.t, fam % 1000 >= 100)) ELSE << >>
-  IN [fam |-> fam, chain |-> ch, kc |-> KindClass(ch.k), cj |-> r.j, ok |-> r.ok, why |-> r.why,
+  IN [fam |-> fam, chain |-> ch, kc |-> KindClass(ch.k), cj |-> r.j, ok |-> r.ok, why |-> r.why, dj |-> DefaultJudged(ch),
       hasDef |-> r.ok /\ d.has, def |-> IF r.ok THEN d.v ELSE << >>,
       bounds |-> IF r.ok THEN BoundTexts(r.t) ELSE << >>,
       probes |-> [i \in 1..Len(ps) |-> ProbeRec(r.t, ps[i])]]
@@ -589,7 +617,7 @@ BigFam(r) ==
   CASE r = 1 -> {Chain("enumeration", <<BigEnum(300)>>), Chain("enumeration", <<BigEnum(150), Lv0>>)}
     [] r = 2 -> {Chain("union", <<Un([i \in 1..16 |-> Mem("int8", Rg(<<P1(ShowNum(Nat2Num(3 * i)))>>))] \o <<Mem("enumeration", BigEnum(60)), Mem("string", Pt(<<P0(ReM2)>>))>>)>>)}
     [] r = 3 -> {Chain("string", <<Pt([i \in 1..20 |-> P0(ReRep(ReCls(TRUE, <<<<100 + i, 100 + i>>>>), 0, -1))]), Pt(<<P0(ReM1), P0(ReDot23)>>)>>)}
-    [] r = 4 -> {[k |-> "identityref", mod |-> m, lay |-> "top", idents |-> BigIdents(90), levels |-> <<[Lv0 EXCEPT !.idbase = [m |-> "a", n |-> "big0"]]>>] : m \in {"a", "b"}}
+    [] r = 4 -> {[k |-> "identityref", mod |-> m, lay |-> "top", ctx |-> "plain", idents |-> BigIdents(90), levels |-> <<[Lv0 EXCEPT !.idbase = [m |-> "a", n |-> "big0"]]>>] : m \in {"a", "b"}}
     [] OTHER -> {}
 \* ------------------------------------------------------------------ every probe lexeme as a default (fam 12200 + r)
 \* whatever value classes probe Validate (multi-byte strings against lower bounds and gaps, boundary lexemes and lexical
@@ -633,7 +661,82 @@ FdRefFam ==
   IN UNION {UNION {{Chain("decimal64", b \o <<d>>) : b \in B(fd), d \in D(fd2)} \cup {Chain("decimal64", b \o <<d, Lv0>>) : b \in B(fd), d \in D(fd2)}
                    \cup {Chain("decimal64", b \o <<d, Rg(<<P2(c2, c5)>>)>>) : b \in B(fd), d \in D(fd2)}
                    : fd2 \in {1, 2, 3, 4, 18}} : fd \in {1, 2, 3}}
+\* ------------------------------------------------------------------ unions whose members refine the same typedef (fam 8030 + r)
+\* A value is accepted by a union iff some member accepts it.  The same typedef (chain of 1-2 typedefs) occurs more than
+\* once among the members with different inline restrictions (range / length / pattern), with the same restriction, and
+\* unrestricted: side by side, with another member between, with one or both occurrences inside nested typedef'd or
+\* inline unions, both inside one nested union; the union written in the leaf or in a typedef of its own.
+USh(k) == CASE k = "uint8" -> << <<Rg(<<P2(c0, T("100"))>>)>>, <<Rg(<<P2(c0, T("100"))>>), Rg(<<P2(T("10"), T("90"))>>)>> >>
+            [] k = "int64" -> << <<Lv0>> >>
+            [] k = "string" -> << <<Ln(<<P2(c1, c8)>>)>>, <<Lv0, Pt(<<P0(ReNotB)>>)>> >>
+            [] k = "decimal64" -> << <<Rg(<<P2(T("1.5"), T("9.5"))>>)>> >>
+            [] OTHER -> << >>
+ULasts(k) == CASE k = "uint8" -> <<Rg(<<P2(T("10"), T("20"))>>), Rg(<<P2(T("80"), T("90"))>>), Rg(<<P2(T("40"), T("60"))>>), Lv0, Rg(<<P1(T("15")), P1(T("85"))>>)>>
+              [] k = "int64" -> <<Rg(<<P2(MinT, T("-1"))>>), Rg(<<P1(MaxT)>>), Rg(<<P2(c1, c9)>>), Lv0>>
+              [] k = "string" -> <<Pt(<<P0(ReABC)>>), Pt(<<P0(ReDot23)>>), Ln(<<P2(c1, c2)>>), Ln(<<P2(c7, c8)>>), [Lv0 EXCEPT !.len = <<P2(c4, c5)>>, !.pats = <<P0(ReAStar)>>], Lv0>>
+              [] k = "decimal64" -> <<Rg(<<P2(T("2"), T("2.5"))>>), Rg(<<P2(T("3.5"), MaxT)>>), Rg(<<P2(MinT, T("1.99"))>>), Lv0>>
+              [] OTHER -> << >>
+Cyc(i, n) == IF i > n THEN i - n ELSE i
+UMs(k, fd, sh, L) == [Chain(k, sh \o <<L>>) EXCEPT !.levels[1].fd = fd]
+UOther == Mem("boolean", Lv0)
+UOther2 == Mem("enumeration", En(Lv0))
+UnionForms(a, b, o) ==
+  << <<a, b>>, <<a, o, b>>, <<TU(<<a, o>>), b>>, <<a, TU(<<o, b>>)>>, <<TU(<<a, o>>), TU(<<UOther2, b>>)>>, <<IU(<<a, o>>), b>>, <<a, IU(<<b>>)>>,
+     <<TU(<<TU(<<a>>), o>>), b>>, <<TU(<<a, b>>)>>, <<TU(<<a, b>>), o>>, <<a, b, a>>, <<TU(<<a, o>>), TU(<<a, o>>), b>>, <<TU(<<a>>), TU(<<b>>)>> >>
+UFd(k) == IF k = "decimal64" THEN 2 ELSE 0
+\* S: which shared typedef chains of USh(k), I: which last levels of ULasts(k)
+UnionDupK(k, S, I) ==
+  LET ls == ULasts(k)  fd == UFd(k) IN
+  UNION {UNION {UNION {
+      LET a == UMs(k, fd, USh(k)[s], ls[i])  b == UMs(k, fd, USh(k)[s], ls[j])  fs == UnionForms(a, b, UOther) IN
+      {Chain("union", <<Un(fs[f])>>) : f \in 1..Len(fs)} \cup {Chain("union", <<Un(fs[f]), Lv0>>) : f \in {1, 3, 9}}
+      : j \in I \cap 1..Len(ls)} : i \in I \cap 1..Len(ls)} : s \in S \cap 1..Len(USh(k))}
+  \cup UNION {{Chain("union", <<Un(<<UMs(k, fd, USh(k)[1], ls[i]), UMs(k, fd, USh(k)[1], ls[Cyc(i + 1, Len(ls))]), UMs(k, fd, USh(k)[1], ls[Cyc(i + 2, Len(ls))])>>)>>),
+               Chain("union", <<Un(<<TU(<<UMs(k, fd, USh(k)[1], ls[i]), UOther>>), TU(<<UMs(k, fd, USh(k)[1], ls[Cyc(i + 1, Len(ls))]), UOther2>>), UMs(k, fd, USh(k)[1], ls[Cyc(i + 2, Len(ls))])>>)>>)}
+              : i \in I \cap 1..Len(ls)}
+\* typedefs that share their name in two modules: the leaf stands in module b; one member reaches typedef a:tN of
+\* module a (lay xmod), another the typedef b:tN of module b (typedefs are numbered per module by the renderer), with
+\* the same or different definitions and inline restrictions, side by side and through nested typedef'd unions
+\* written in module a and in module b
+XM(ch) == [ch EXCEPT !.lay = "xmod"]
+UnionXmodK(k, S, I) ==
+  LET ls == ULasts(k)  fd == UFd(k)  shs == USh(k)
+      inb(ms, lv) == [Chain("union", <<Un(ms)>> \o lv) EXCEPT !.mod = "b"]
+  IN UNION {UNION {UNION {UNION {
+       LET a == XM(UMs(k, fd, shs[s], ls[i]))  b == UMs(k, fd, shs[s2], ls[j]) IN
+       {inb(<<a, b>>, << >>), inb(<<b, a>>, << >>), inb(<<a, UOther, b>>, << >>), inb(<<XM(TU(<<a, UOther>>)), TU(<<b, UOther2>>)>>, << >>),
+        inb(<<TU(<<b, UOther>>), XM(TU(<<a, UOther2>>))>>, << >>), inb(<<XM(TU(<<a, UOther>>)), b>>, << >>), inb(<<a, b>>, <<Lv0>>)}
+       : j \in I \cap 1..Len(ls)} : i \in I \cap 1..Len(ls)} : s2 \in S \cap 1..Len(shs)} : s \in S \cap 1..Len(shs)}
+\* r = 8, 9, 10: reduced families for the quick tier
+UnionDupFam(r) == CASE r = 1 -> UnionDupK("uint8", 1..2, 1..9) [] r = 2 -> UnionDupK("string", 1..2, 1..9) [] r = 3 -> UnionDupK("decimal64", 1..2, 1..9) [] r = 4 -> UnionDupK("int64", 1..2, 1..9)
+                    [] r = 5 -> UnionXmodK("uint8", 1..2, 1..9) [] r = 6 -> UnionXmodK("string", 1..2, 1..9) [] r = 7 -> UnionXmodK("decimal64", 1..2, 1..9)
+                    [] r = 8 -> UnionDupK("uint8", {1}, {1, 2, 4}) [] r = 9 -> UnionDupK("string", {1}, {1, 3, 4}) [] r = 10 -> UnionXmodK("uint8", {1}, {1, 2, 4})
+                    [] OTHER -> {}
+\* ------------------------------------------------------------------ leaf contexts (fam 12300 + r; groups 10300 + r)
+\* The verdict on a type statement and on the defaults along its chain is probed under everything else a leaf can
+\* carry or stand in: the inherited / own default inside, outside and on the edge of the value space narrowed by a
+\* range / length / pattern, default and narrowing at every level of the chain, in every context of Ctxs
+\* (r: 1 int8, 2 string, 3 decimal64, 4 uint64, 5 other kinds, 6 unions of refined typedefs; 11, 12: reduced 1, 2 for the quick tier)
+CtxChains(r) ==
+  CASE r = 1 -> DefNarrow("int8", 0, {Lv0, Rg(<<P2(c0, T("100"))>>)}, <<Rg(<<P2(c2, c4)>>), Rg(<<P2(c6, MaxT)>>), Rg(<<P2(c1, c5), P2(c7, c9)>>)>>, {c3, c6, T("100")})
+    [] r = 11 -> DefNarrow("int8", 0, {Rg(<<P2(c0, T("100"))>>)}, <<Rg(<<P2(c2, c4)>>), Rg(<<P2(c6, MaxT)>>)>>, {c3, c6})
+    [] r = 2 -> DefNarrow("string", 0, {Lv0, Ln(<<P2(c1, c6)>>)}, <<Ln(<<P2(c2, c3)>>), Pt(<<P0(ReABC)>>), [Lv0 EXCEPT !.len = <<P2(c2, c3)>>, !.pats = <<P0(ReAStar)>>]>>, {<<ca, cb>>, <<ca, cb, cc, ca>>, <<cx, 49>>})
+    [] r = 12 -> DefNarrow("string", 0, {Ln(<<P2(c1, c6)>>)}, <<Ln(<<P2(c2, c3)>>), Pt(<<P0(ReABC)>>)>>, {<<ca, cb>>, <<cx, cx, cx, cx>>})
+    [] r = 3 -> DefNarrow("decimal64", 2, {Lv0, Rg(<<P2(c1, c9)>>)}, <<Rg(<<P2(T("1.5"), T("2.5"))>>), Rg(<<P2(c2, MaxT)>>)>>, {c2, T("2.55"), T("1.5")})
+    [] r = 4 -> DefNarrow("uint64", 0, {Lv0}, <<Rg(<<P2(MinT, c3)>>), Rg(<<P1(MaxT)>>)>>, {c3, c6, ShowNum(WidthOf("uint64").hi)})
+    [] r = 5 -> OtherDefFam
+    [] r = 6 -> {[ch EXCEPT !.levels[i] = WithDef(@, d)] : ch \in {Chain("union", <<Un(UnionForms(UMs("uint8", 0, USh("uint8")[1], ULasts("uint8")[1]), UMs("uint8", 0, USh("uint8")[1], ULasts("uint8")[2]), UOther)[f]), Lv0>>) : f \in {1, 3, 4}},
+                                                          i \in 1..2, d \in {c5, T("95"), T("50"), T("true")}}
+    [] OTHER -> {}
+CtxFam(r) == {InCtx(ch, Ctxs[c]) : ch \in CtxChains(r), c \in 2..Len(Ctxs)}
+\* the same chain as sibling leaves in different contexts, in both orders, and three at once: the verdict on a leaf
+\* does not depend on what was decided for another use of the same typedefs
+CtxPairs == {<<1, 2>>, <<2, 1>>, <<1, 11>>, <<14, 1>>, <<2, 3>>, <<17, 19>>, <<19, 1>>, <<4, 9>>, <<2, 2>>}
+CtxGroupFam(r) == {<<InCtx(ch, Ctxs[p[1]]), InCtx(ch, Ctxs[p[2]])>> : ch \in CtxChains(r), p \in CtxPairs}
+                  \cup {<<InCtx(ch, "mandatory"), ch, InCtx(ch, "list-mandatory")>> : ch \in CtxChains(r)}
 \* ------------------------------------------------------------------ family table
+\* fam 10000 + r: r < 100 shared chains, r in 100..199 different bases, 200..299 histories of one typedef, 300.. leaf contexts
+GroupsOf(fam) == LET r == fam % 1000 IN IF r < 100 THEN SharedFam(r) ELSE IF r < 200 THEN DiffBaseFam(r - 100) ELSE IF r < 300 THEN KindHistFam(r - 200) ELSE CtxGroupFam(r - 300)
 \* the chains of an exhaustive family (group = fam \div 1000)
 ChainsOf(fam, maxd) ==
   LET g == fam \div 1000  r == fam % 1000 IN
@@ -644,9 +747,9 @@ ChainsOf(fam, maxd) ==
     [] g = 5 -> LenFam(r, maxd)
     [] g = 6 -> (CASE r = 1 -> PatFam(maxd) [] r = 2 -> MixFam [] OTHER -> StrDefFam)
     [] g = 7 -> (CASE r = 1 -> KindFam [] r = 2 -> OtherDefFam [] OTHER -> LayoutFam)
-    [] g = 8 -> (CASE r \in 1..8 -> DirectIntFam(r) [] r \in 11..16 -> DirectDecFam(r - 10) [] r = 20 -> DirectStrFam [] r = 21 -> DirectOtherFam [] OTHER -> MsgFam)
+    [] g = 8 -> (CASE r \in 1..8 -> DirectIntFam(r) [] r \in 11..16 -> DirectDecFam(r - 10) [] r = 20 -> DirectStrFam [] r = 21 -> DirectOtherFam [] r \in 31..49 -> UnionDupFam(r - 30) [] OTHER -> MsgFam)
     [] g = 12 -> (CASE r < 10 -> HugeGapFam(r) [] r = 10 -> HugeLenFam [] r \in 21..28 -> LimitIntFam(r - 20) [] r = 30 -> LimitLenFam [] r = 50 -> FdRefFam
-                    [] r \in 41..46 -> LimitDecFam(r - 40) [] r \in 101..199 -> DefNarrowFam(r - 100) [] OTHER -> DefProbeFam(r - 200))
+                    [] r \in 41..46 -> LimitDecFam(r - 40) [] r \in 101..199 -> DefNarrowFam(r - 100) [] r \in 300..399 -> CtxFam(r - 300) [] OTHER -> DefProbeFam(r - 200))
     [] g = 13 -> BigFam(r)
     [] OTHER -> {}
 \* group 8 (directly constructed types) is probed with lexical variants and multi-byte strings
